@@ -45,15 +45,21 @@ func patClass(pat string) string {
 // runPatterns: build("fresh") is the reference run (distinct objects, clean state; its inputs are
 // snapshotted before / after); every other pattern must produce the same canonical string. An alias
 // pattern may be rejected by an error; a history pattern may not (the reference was accepted).
-// build may return a nil run for a pattern that does not apply.
+// build may return a nil run for a pattern that does not apply. The output objects that the fresh run exposes
+// with t.out(...) must not share storage with its inputs (indep.go); what the other patterns expose is dropped
+// (there the output may be an argument).
 func (t *T) runPatterns(api, variant, pred string, pats []string, build func(pat string) (ins []named, run func() (string, error))) {
 	t.distinct(api, "fresh", "-", variant, true)
+	t.takeOuts()
 	ins, run := build("fresh")
 	var v0 string
 	o := t.guarded(api, pred, api+" fresh "+variant, ins, func() (err error) { v0, err = run(); return })
+	outs := t.takeOuts()
 	if !o.ok() {
 		return
 	}
+	t.independentAny(api, api+" fresh "+variant, outs, ins)
+	defer t.takeOuts()
 	for _, pat := range pats {
 		ins, run := build(pat)
 		if run == nil {
@@ -188,6 +194,7 @@ func runCKKSMisc2(c *eng.Ctx, cfg pcfg) {
 			if out != in {
 				ins = append(ins, named{"op0", in})
 			}
+			t.out(out)
 			return ins, func() (string, error) { err := ev.ScaleUp(in, sc, out); return ctString(rq, out), err }
 		})
 		t.runPatterns("ckks.Evaluator.RescaleTo", "scale-arg/"+v.name, "scale", append([]string{"out=in", "hist-out"}, histPats...), func(pat string) ([]named, func() (string, error)) {
@@ -207,6 +214,7 @@ func runCKKSMisc2(c *eng.Ctx, cfg pcfg) {
 			if out != in {
 				ins = append(ins, named{"op0", in})
 			}
+			t.out(out)
 			return ins, func() (string, error) { err := ev.RescaleTo(in, sc, out); return ctString(rq, out), err }
 		})
 		// SetScale is documented in place on ct; the scale argument and the keys are inputs
@@ -273,6 +281,7 @@ func runCKKSMisc2(c *eng.Ctx, cfg pcfg) {
 			}
 			return []named{{"ctIn", in}, {"rotations", &rr}, {"evk", e.evk}}, func() (string, error) {
 				outs, err := ev.RotateHoistedNew(in, rr)
+				t.out(outs)
 				return mapString(outs, f), err
 			}
 		})
@@ -291,6 +300,7 @@ func runCKKSMisc2(c *eng.Ctx, cfg pcfg) {
 				rqp := p.RingQP().AtLevel(lvl, p.MaxLevelP())
 				return []named{{"ct", in}, {"rotations", &rr}, {"c2DecompQP", &dec}, {"evk", e.evk}}, func() (string, error) {
 					outs, err := ev.RotateHoistedLazyNew(lvl, rr, in, dec)
+					t.out(outs)
 					return mapString(outs, func(x *rlwe.Element[ringqp.Poly]) string { return cvalString(canonElQP(&rqp, x)) }), err
 				}
 			})
@@ -377,6 +387,7 @@ func runBGVMisc2(c *eng.Ctx, cfg pcfg) {
 				rqp := p.RingQP().AtLevel(lvl, p.MaxLevelP())
 				return []named{{"op0", in}, {"rotations", &rr}, {"c2DecompQP", &dec}, {"evk", e.evk}}, func() (string, error) {
 					outs, err := ev.RotateHoistedLazyNew(lvl, rr, in, dec)
+					t.out(outs)
 					return mapString(outs, func(x *rlwe.Element[ringqp.Poly]) string { return cvalString(canonElQP(&rqp, x)) }), err
 				}
 			})
